@@ -89,6 +89,88 @@ def graph_of(products):
     return atoms, bonds, set(comps)
 
 
+# ---- several reactants: beyond the statement of C16 (which speaks of one molecule); compared, never alarmed
+MULTI = [
+    ("rule ADD{ reactant r1{ C. labeled c1 } reactant r2{ C. labeled c2 } form bond(c1,c2) "
+     "decrease number of radical (c1) decrease number of radical (c2) }",
+     [['[CH3]', '[CH3]'], ['[CH3]', 'C[CH2]'], ['[CH2]C[CH2]', '[CH3]'], ['C', '[CH3]']]),
+    ("rule HABS{ reactant r1{ C. labeled c1 } reactant r2{ C labeled c2 H labeled h1 single bond to c2 } "
+     "break bond(c2,h1) form bond(c1,h1) decrease number of radical (c1) increase number of radical (c2) }",
+     [['[CH3]', 'CC'], ['C[CH2]', 'C'], ['[CH3]', 'O']]),
+    ("rule OADD{ reactant r1{ O. labeled o1 } reactant r2{ C labeled c1 C labeled c2 double bond to c1 } "
+     "form bond(o1,c1) decrease bond order (c1,c2) decrease number of radical (o1) increase number of radical (c2) }",
+     [['C[O]', 'C=C'], ['[OH]', 'CC=C']]),
+    ("rule TER{ reactant r1{ C. labeled c1 } reactant r2{ O labeled o1 } reactant r3{ C. labeled c3 } "
+     "form bond(c1,c3) decrease number of radical (c1) decrease number of radical (c3) }",
+     [['[CH3]', 'O', '[CH3]'], ['C[CH2]', 'CO', '[CH3]']]),
+]
+
+
+def _multi(ctx):
+    mols, idx = [], {}
+    cases = []
+    for text, lists in MULTI:
+        for smis in lists:
+            ks = []
+            for s in smis:
+                if s not in idx:
+                    mols.append(molio.export(Chem.AddHs(Chem.MolFromSmiles(s))))
+                    idx[s] = len(mols)
+                ks.append(idx[s])
+            cases.append({'rule': codes(text), 'mols': ks, '_text': text, '_smis': smis})
+    data = {'mols': mols, 'cases': [{'rule': c['rule'], 'mols': c['mols']} for c in cases]}
+    out, r = ctx.tlc_json('MC_ReactionN', 'MC_ReactionN.cfg', data, count=False)
+
+    def canon(rs):
+        bag = []
+        for x in rs:
+            if 'unspecified' in x:
+                return None
+            bag.append((tuple((a['z'], a['q'], a['rad']) for a in x['atoms']),
+                        frozenset((min(a, b), max(a, b), k) for a, b, k in x['bonds']),
+                        frozenset(frozenset(c) for c in x['comps'])))
+        return sorted(bag, key=repr)
+    notes = {'agree': 0, 'differ_beyond_statement': [], 'non_cumulative_shift_with_three_reactants': []}
+    for c, spec, dev in zip(cases, out['res'], out['dev']):
+        label = '%s on %s' % (c['_text'].split('{')[0].strip(), ' + '.join(c['_smis']))
+        kind, q, _ = call(Read, c['_text'])
+        if kind == 'error' or not spec['ok']:
+            if (kind == 'error') == spec['ok']:
+                notes['differ_beyond_statement'].append(label + ': read differently')
+            continue
+        ms, off = [], 0
+        for s in c['_smis']:
+            m = Chem.AddHs(Chem.MolFromSmiles(s))
+            for a in m.GetAtoms():
+                a.SetIntProp('vid', off + a.GetIdx() + 1)
+            off += m.GetNumAtoms()
+            ms.append(m)
+        k2, prods, _ = call(q.RunReactants, tuple(ms))
+        ctx.evaluations += 1
+        want, wdev = canon(spec['rs']), canon(dev['rs'])
+        if k2 == 'error':
+            got = 'error:' + type(prods).__name__
+        else:
+            got = []
+            for ps in prods:
+                atoms, bonds, comps = graph_of(ps)
+                got.append((tuple(atoms[k] for k in sorted(atoms)), frozenset(bonds), frozenset(comps)))
+            got = sorted(got, key=repr)
+        if want is None:
+            continue
+        if got == want:
+            notes['agree'] += 1
+        elif len(c['_smis']) >= 3 and (got == wdev or (wdev is None and isinstance(got, str))):
+            # (wdev None: with the (k-1)-only shift the edit hits atoms it has no meaning on, the code raises)
+            notes['non_cumulative_shift_with_three_reactants'].append(label)
+        else:
+            notes['differ_beyond_statement'].append(label)
+    ctx.extra['several_reactants'] = notes
+    ctx.log('several reactants (beyond the statement, never alarmed): %d cases agree with Reaction.tla, %d follow the '
+            'non-cumulative index shift (three reactants), %d differ otherwise'
+            % (notes['agree'], len(notes['non_cumulative_shift_with_three_reactants']), len(notes['differ_beyond_statement'])))
+
+
 def run(ctx):
     thorough = ctx.tier == 'thorough'
     rng_ = random.Random(ctx.seed)
@@ -181,6 +263,7 @@ def run(ctx):
                               {'kind': 'pair', 'text': text, 'smiles': smi})
                 break
     ctx.extra.update(stats)
+    _multi(ctx)
     ctx.extra['rules'] = len(rules)
     ctx.extra['pairs'] = len(pairs)
     ctx.sample({'rule': rules[len(EXPLICIT)][0][:300], 'balanced': rules[len(EXPLICIT)][1]})
